@@ -25,7 +25,13 @@ pub fn case(idx: u64, seed: u64, p: &Params, o: &mut CaseOut) {
         build_w_isize_alt(&m)
     };
     let mut fw = FloydWarshall::new(&d);
-    let dist = fw.distances();
+    let first = fw.distances().clone();
+    let mut cl = fw.clone();
+    let second = fw.distances().clone();
+    o.check(second == first, "distances-differ-on-second-call", || format!("first {:?} second {:?}", first.dist, second.dist));
+    let cloned = cl.distances().clone();
+    o.check(cloned == first, "distances-differ-on-a-clone", || format!("first {:?} clone {:?}", first.dist, cloned.dist));
+    let dist = &first;
     o.eq("matrix-order", &dist.order, &n);
     let mut rows: Vec<Vec<isize>> = Vec::new();
     for u in 0..n {
